@@ -391,13 +391,38 @@ def build_engine(prop, tier, replay, t0):
         st = vlib.harness(['build', '-cases', trap, '-exhaustive', '3' if thorough else '2', '-random', '20000' if thorough else '1500',
                            '-maxlen', '10' if thorough else '8', '-seed', str(vlib.seed()), '-out', trace])
     cfg = vlib.cfg_text(dict(build_consts(1000, 1000), TraceFile='"trace.ndjson"', VerdictFile='"verdicts.ndjson"', MaxInitTests='6'), init='TraceInit', next_='TraceNext')
-    res = vlib.run_tlc('Trace_Build', cfg, workers=1, timeout=3600, files={'trace.ndjson': trace})
-    vf = os.path.join(res['dir'], 'verdicts.ndjson')
-    if not os.path.exists(vf):
-        raise Inconclusive('Trace_Build produced no verdicts\n' + res['out'][-4000:])
-    verdicts = [json.loads(l) for l in open(vf) if l.strip()]
-    if not verdicts or verdicts[-1]['prop'] != 'END':
-        raise Inconclusive('Trace_Build stopped early')
+    # episodes are independent (every `new` line starts from scratch): the trace is validated in chunks of whole episodes
+    all_lines = open(trace).read().splitlines(True)
+    chunks, cur = [], []
+    for ln in all_lines:
+        if ln.startswith('{"e":"new"') and len(cur) >= 250000:
+            chunks.append(cur)
+            cur = []
+        cur.append(ln)
+    if cur:
+        chunks.append(cur)
+    verdicts, res, offset = [], None, 0
+    for ci, ch in enumerate(chunks):
+        cf = os.path.join(d, 'chunk%d.ndjson' % ci)
+        open(cf, 'w').writelines(ch)
+        r1 = vlib.run_tlc('Trace_Build', cfg, workers=1, timeout=3600, files={'trace.ndjson': cf})
+        vf = os.path.join(r1['dir'], 'verdicts.ndjson')
+        if not os.path.exists(vf):
+            raise Inconclusive('Trace_Build produced no verdicts\n' + r1['out'][-4000:])
+        vs = [json.loads(l) for l in open(vf) if l.strip()]
+        if not vs or vs[-1]['prop'] != 'END':
+            raise Inconclusive('Trace_Build stopped early')
+        for v in vs[:-1]:
+            v['line'] += offset
+            verdicts.append(v)
+        offset += len(ch)
+        os.remove(cf)
+        if res is None:
+            res = r1
+        else:
+            res['distinct'] += r1['distinct']
+            res['generated'] += r1['generated']
+    verdicts.append({'prop': 'END'})
     viol = verdicts[:-1]
     rc = 0
     if viol:
